@@ -31,7 +31,14 @@ def filterOk (id prop : Nat) : Bool :=
   else if 5 ≤ id ∧ id ≤ 10 then prop % 4 = 0
   else false
 
-def xzValidate (o : LzOptions) (filters : List (Nat × Nat)) : Bool :=
-  decide (filters.length ≤ 3) && validate o true && filters.all fun f => filterOk f.1 f.2
+/-- `XZWriter::new`: at most three pre-filters, `validate(true)`, NO (non-empty) preset dictionary - the XZ format
+    cannot announce one, so no reader could decode the stream - and the per-filter checks.  `presetLen` is the length
+    of `lzma_options.preset_dict` (0 for `None`; an empty preset dictionary counts as none, as in `LZMA2Writer::new`). -/
+def xzValidate (o : LzOptions) (filters : List (Nat × Nat)) (presetLen : Nat := 0) : Bool :=
+  decide (filters.length ≤ 3) && validate o true && decide (presetLen = 0) && filters.all fun f => filterOk f.1 f.2
+
+/-- `LZIPWriter::new` overwrites what the format fixes (lc = 3, lp = 0, pb = 2, dictionary clamped to 4 KiB .. 512 MiB,
+    no preset dictionary) instead of rejecting: the preset-dictionary length that reaches the member encoder -/
+def lzipPresetUsed (_presetLen : Nat) : Nat := 0
 
 end LzmaVerif.Options
